@@ -133,6 +133,13 @@ def _case(draw):
     if k == 7:
         src = "<" + d.pick(EMAIL_LOCALS) + d.pick(["", d.pick(EMAIL_LOCALS)]) + "@" + d.pick(["example.com", "b.c", "xn--n3h.net", "a-b.c", "B.C"]) + ">"
         return {"kind": "email", "src": src, "cfg": cfg, "sem": "mailto:", "nonraw": False}
+    if k == 7 and d.chance(0.5):
+        # several URL-ish words in one text node, with the linkifier on: accepted and rejected matches side by side
+        words = []
+        for _ in range(d.i(2, 5)):
+            words.append(d.pick(["www.ok.example", "http://a.b/c", "javascript:alert(1)", "vbscript:x", "data:text/html,x", "file:///etc", "mailto:a@b.c", "a@b.c", "ftp://f.g", "JaVaScRiPt:x", "data:image/png;base64,AA", "x"]))
+            words.append(d.pick(["and", "or", "see", "there", "*e*", "(", ")."]))
+        return {"kind": "linkify-text", "src": " ".join(words), "cfg": C.simple(d.pick(["js-default", "commonmark"]), linkify=True), "sem": "", "nonraw": False}
     if k == 8:
         # validator/normaliser called directly
         sem = d.pick(PREFIXES[:3] + ["\x01", " ", "\t", "\n", " ", "\x00", "\x1f", " ", "﻿"]) + d.pick(SCHEMES) + d.pick(TAILS)
@@ -196,6 +203,24 @@ def check(case) -> Res:
         if not SAFE.match(u) and not md.options.get("html"):
             res.fail("html:not-url-safe-ascii", f"{m.group(0)!r}")
     res.cls.append("link_emitted" if found else "no_link")
+    # definitions recorded in env are parser output too: a recorded destination obeys the same rules
+    for where in ("references", "duplicate_refs"):
+        recs = env.get(where) or {}
+        for r in (recs.values() if isinstance(recs, dict) else recs):
+            u = r.get("href") if isinstance(r, dict) else None
+            if isinstance(u, str) and (browser_bad(u) or not SAFE.match(u)):
+                res.fail(f"env:{where}:unvalidated-destination", f"env[{where!r}] holds href {u!r}")
+    if kind == "linkify-text":
+        # the linkifier only wraps text into links: with the <a> tags removed the text is what it is without linkify
+        off = C.build(dict(cfg, linkify=False))
+        off.disable(["autolink"], True)
+        on2 = C.build(cfg)
+        on2.disable(["autolink"], True)
+        strip = lambda h: re.sub(r"</?a(?: [^<>]*)?>", "", h)  # noqa: E731
+        a, b = strip(on2.render(src)), strip(off.render(src))
+        if a != b and "%" not in src:
+            res.fail("linkify:text-not-preserved", f"with linkify {a!r}, without {b!r}")
+        res.nt = True
     if kind in ("template", "email") and not found and not env.get("references"):
         # rejected (or not a link at all): must be left as literal text - exactly what one gets without the link rules
         off = C.build(cfg)
